@@ -52,7 +52,8 @@ def preamble(flags, variant="normal"):
        early-compressed <compressed/> arrives although the client has not asked (no offer): must be ignored
        no-offer         the server does not offer compression
        failure          the server answers <failure/> to <compress/>
-       offer-ignored    the server offers zlib, the client (compression not allowed) goes on to bind"""
+       offer-ignored    the server offers zlib, the client (compression not allowed) goes on to bind
+       foreign-compressed  the server offers zlib and answers <compress/> with <compressed/> elements of other namespaces"""
     p = ["conn", "flags %d" % flags, "jid " + hx(JID), "pass " + hx("secret"), "hdef 0 s - - - 1", "hadd 0",
          "connect client", "run", rx(HDR), "run", rx(F_SASL), "run", "run", rx(SUCCESS), "run", "run", rx(HDR), "run"]
     if variant == "normal":
@@ -65,6 +66,9 @@ def preamble(flags, variant="normal"):
         p += [rx(F_COMP), "run", "run", rx("<failure xmlns='http://jabber.org/protocol/compress'><setup-failed/></failure>"), "run", "run"]
     elif variant == "offer-ignored":
         p += [rx(F_COMP), "run", "run", rx(BINDRES), "run", "run"]
+    elif variant == "foreign-compressed":
+        # an element that is merely *called* compressed (other namespace) does not confirm anything
+        p += [rx(F_COMP), "run", "run", rx("<compressed xmlns='urn:example:not-compression'/>"), "run", "run", rx("<compressed/>"), "run", "run"]
     return p
 
 
@@ -793,7 +797,8 @@ def gen_cases(chk):
 # ----------------------------------------------------------------------------------------------
 def negotiation_cases():
     return [(64, "normal"), (192, "normal"), (64, "early-compressed"), (192, "early-compressed"), (64, "no-offer"), (64, "failure"),
-            (0, "offer-ignored"), (128, "offer-ignored"), (0, "early-compressed"), (0, "no-offer")]
+            (0, "offer-ignored"), (128, "offer-ignored"), (0, "early-compressed"), (0, "no-offer"),
+            (64, "foreign-compressed"), (192, "foreign-compressed")]
 
 
 def judge_negotiation(chk, flags, variant, line):
@@ -807,11 +812,11 @@ def judge_negotiation(chk, flags, variant, line):
     wrote = b"".join(bytes.fromhex(m.group(1)) for m in re.finditer(r"\b[WT]\d+:([0-9a-f]+)", trace))
     asked = T_COMPRESS.encode() in wrote
     expect_layer = (flags & 64) != 0 and variant == "normal"
-    expect_ask = (flags & 64) != 0 and variant in ("normal", "failure")
+    expect_ask = (flags & 64) != 0 and variant in ("normal", "failure", "foreign-compressed")
     if asked != expect_ask:
         chk.fail(case, "<compress/> %s although compression is %s and the server %s it" %
                  ("sent" if asked else "not sent", "allowed" if flags & 64 else "not allowed",
-                  "offered" if variant in ("normal", "failure") else "did not offer"), extra={"scenario": ";".join(preamble(flags, variant)), "class": "negotiation", "label": "negotiation-" + variant})
+                  "offered" if variant in ("normal", "failure", "foreign-compressed") else "did not offer"), extra={"scenario": ";".join(preamble(flags, variant)), "class": "negotiation", "label": "negotiation-" + variant})
     if bool(layered) != expect_layer:
         chk.fail(case, "compression layer %s (flags=%d, server script '%s')" % ("installed" if layered else "not installed", flags, variant),
                  extra={"scenario": ";".join(preamble(flags, variant)), "class": "negotiation", "label": "negotiation-" + variant})
